@@ -153,75 +153,7 @@ func runC10(c *Ctx) {
 			c.bad(key, s.instr.Pos(), "dec is guarded by a Once that is neither fresh per release closure nor finalizeOnce")
 		}
 	}
-	// ---- finalize sites ----
-	c.clause("C10.c", "T1+T4", "finalize is called under the cache mutex together with removal from the index (or from lru's OnEvicted hook)", 3)
-	for _, s := range c.callSitesOf(idIs(pkg+".(*refCounter).finalize"), live) {
-		f := s.caller
-		key := c.fnKey(f) + ":finalize"
-		rootKey := c.fnKey(enclosingRoot(f))
-		switch {
-		case rootKey == pkg+".NewLRUCache":
-			// must be the literal stored into lru.Cache.OnEvicted
-			stored := false
-			for _, u := range literalUses(f) {
-				if st, ok := u.(*ssa.Store); ok {
-					if fa, ok := st.Addr.(*ssa.FieldAddr); ok && fieldName(fa) == "OnEvicted" && typeQName(fa.X.Type()) == "github.com/golang/groupcache/lru.Cache" {
-						stored = true
-					}
-				}
-			}
-			c.verdict(key, s.instr.Pos(), stored, "finalize in lru.Cache.OnEvicted hook (lru removes the element before calling it)", "finalize literal is not the lru OnEvicted hook")
-		case rootKey == pkg+".(*TTLCache).evictLocked" || rootKey == pkg+".(*TTLCache).decreaseOnceFunc":
-			held := c.locksAt(s.instr)
-			if held["c.mu"] != lockW {
-				c.bad(key, s.instr.Pos(), "finalize without c.mu held")
-				continue
-			}
-			// a delete(c.m, ...) in the same function: dominating (evictLocked) or following under identity test (release)
-			dels := callsIn(f, func(id string, ci ssa.CallInstruction) bool {
-				if id != "builtin.delete" {
-					return false
-				}
-				_, ok := isFieldLoad(ci.Common().Args[0], pkg+".TTLCache", "m")
-				return ok
-			})
-			if len(dels) == 0 {
-				c.bad(key, s.instr.Pos(), "finalize without removing the entry from TTLCache.m in the same critical section: a later Get would inc a finalized counter")
-				continue
-			}
-			good := false
-			detail := ""
-			for _, d := range dels {
-				if dominatesInstr(d, s.instr) {
-					good = true
-					detail = "delete(c.m,key) dominates finalize"
-				} else if got, _ := reach(f, s.instr, isInstr(d), nil); got != nil {
-					// conditional delete after finalize must test identity with the finalized counter
-					idEdges := condEdges(f, func(cond ssa.Value) int {
-						b, ok := cond.(*ssa.BinOp)
-						if !ok || b.Op != token.EQL {
-							return 0
-						}
-						fin := addrKey(s.instr.(ssa.CallInstruction).Common().Args[0])
-						if (addrKey(b.X) == fin || promoted2(b.X, fin)) || (addrKey(b.Y) == fin || promoted2(b.Y, fin)) {
-							return 1
-						}
-						return 0
-					})
-					if okp, _ := mustPass(f, d, newCuts().addEdges(idEdges)); okp && len(idEdges) > 0 {
-						good = true
-						detail = "delete after finalize guarded by identity test c.m[key]==rc"
-					} else {
-						detail = "delete after finalize is not guarded by identity with the finalized counter: would drop a newer value of the same key"
-					}
-				}
-			}
-			// the lock must stay held from finalize to delete
-			c.verdict(key, s.instr.Pos(), good, detail, "finalize not coupled with index removal: "+detail)
-		default:
-			c.bad(key, s.instr.Pos(), "finalize called outside the eviction paths")
-		}
-	}
+	clauseFinalizeWithRemoval(c, "C10.c")
 
 	// ---- onEvicted invocation in dec ----
 	c.clause("C10.p4", "T1+T3", "the eviction callback is invoked only from refCounter.dec, under r.mu, on the count<=0 edge; refCounts is written only by inc (+1) and dec (-1) under r.mu", 3)
@@ -646,6 +578,82 @@ func clauseIncDiscipline(c *Ctx, id string) {
 			} else {
 				c.bad(key, r.Pos(), "returned value is not the value of the counter the release closure decrements")
 			}
+		}
+	}
+
+}
+
+// clauseFinalizeWithRemoval: every refCounter.finalize call is coupled with the removal of
+// the entry from the cache index under the cache mutex (shared by C10.c and C12.n).
+func clauseFinalizeWithRemoval(c *Ctx, id string) {
+	const pkg = "util/cacheutil"
+	live := c.liveFuncs()
+	c.clause(id, "T1+T4", "finalize is called under the cache mutex together with removal from the index (or from lru's OnEvicted hook)", 3)
+	for _, s := range c.callSitesOf(idIs(pkg+".(*refCounter).finalize"), live) {
+		f := s.caller
+		key := c.fnKey(f) + ":finalize"
+		rootKey := c.fnKey(enclosingRoot(f))
+		switch {
+		case rootKey == pkg+".NewLRUCache":
+			// must be the literal stored into lru.Cache.OnEvicted
+			stored := false
+			for _, u := range literalUses(f) {
+				if st, ok := u.(*ssa.Store); ok {
+					if fa, ok := st.Addr.(*ssa.FieldAddr); ok && fieldName(fa) == "OnEvicted" && typeQName(fa.X.Type()) == "github.com/golang/groupcache/lru.Cache" {
+						stored = true
+					}
+				}
+			}
+			c.verdict(key, s.instr.Pos(), stored, "finalize in lru.Cache.OnEvicted hook (lru removes the element before calling it)", "finalize literal is not the lru OnEvicted hook")
+		case rootKey == pkg+".(*TTLCache).evictLocked" || rootKey == pkg+".(*TTLCache).decreaseOnceFunc":
+			held := c.locksAt(s.instr)
+			if held["c.mu"] != lockW {
+				c.bad(key, s.instr.Pos(), "finalize without c.mu held")
+				continue
+			}
+			// a delete(c.m, ...) in the same function: dominating (evictLocked) or following under identity test (release)
+			dels := callsIn(f, func(id string, ci ssa.CallInstruction) bool {
+				if id != "builtin.delete" {
+					return false
+				}
+				_, ok := isFieldLoad(ci.Common().Args[0], pkg+".TTLCache", "m")
+				return ok
+			})
+			if len(dels) == 0 {
+				c.bad(key, s.instr.Pos(), "finalize without removing the entry from TTLCache.m in the same critical section: a later Get would inc a finalized counter")
+				continue
+			}
+			good := false
+			detail := ""
+			for _, d := range dels {
+				if dominatesInstr(d, s.instr) {
+					good = true
+					detail = "delete(c.m,key) dominates finalize"
+				} else if got, _ := reach(f, s.instr, isInstr(d), nil); got != nil {
+					// conditional delete after finalize must test identity with the finalized counter
+					idEdges := condEdges(f, func(cond ssa.Value) int {
+						b, ok := cond.(*ssa.BinOp)
+						if !ok || b.Op != token.EQL {
+							return 0
+						}
+						fin := addrKey(s.instr.(ssa.CallInstruction).Common().Args[0])
+						if (addrKey(b.X) == fin || promoted2(b.X, fin)) || (addrKey(b.Y) == fin || promoted2(b.Y, fin)) {
+							return 1
+						}
+						return 0
+					})
+					if okp, _ := mustPass(f, d, newCuts().addEdges(idEdges)); okp && len(idEdges) > 0 {
+						good = true
+						detail = "delete after finalize guarded by identity test c.m[key]==rc"
+					} else {
+						detail = "delete after finalize is not guarded by identity with the finalized counter: would drop a newer value of the same key"
+					}
+				}
+			}
+			// the lock must stay held from finalize to delete
+			c.verdict(key, s.instr.Pos(), good, detail, "finalize not coupled with index removal: "+detail)
+		default:
+			c.bad(key, s.instr.Pos(), "finalize called outside the eviction paths")
 		}
 	}
 
